@@ -2,7 +2,8 @@ import Model.Timers
 /-!
 Line protocol of engine `timers` (first token selects the component):
 
-* `sw <op> …`      ops `a<ns>` | `sb pb db xb wb` | `so<k> po<k> do<k> xo<k> wo<k>` | `c`
+* `sw <op> …`      ops `a<ns>` | `sb pb db xb wb` | `so<k> po<k> do<k> xo<k> wo<k>` | `c` |
+  `ub` / `uo<k>` / `vo<k>`: the guard is dropped by a contained unwinding panic (same thread / panicking thread)
   reply: one token per prefix of the sequence (the empty prefix first), `<ret>/<close>`:
   `ret` = value returned by `guard.stop()` (`-` none, `!` the `unwrap` panics),
   `close` = `(&stopwatch).close()` (`n` = `None`, `-` = not expressible, a `TimerGuard` borrows the
@@ -26,14 +27,17 @@ open _root_.Timers
 def parseOp (s : String) : Option Op :=
   if s == "sb" then some .startB
   else if s == "pb" then some .stopB
-  else if s == "db" then some .dropB
+  else if s == "db" then some (.dropB false)
+  else if s == "ub" then some (.dropB true)
   else if s == "xb" then some .discardB
   else if s == "wb" then some .overwriteB
   else if s == "c" then some .clear
   else if s.startsWith "a" then (s.drop 1).toNat?.map .advance
   else if s.startsWith "so" then (s.drop 2).toNat?.map .startO
   else if s.startsWith "po" then (s.drop 2).toNat?.map .stopO
-  else if s.startsWith "do" then (s.drop 2).toNat?.map .dropO
+  else if s.startsWith "do" then (s.drop 2).toNat?.map (.dropO · false)
+  else if s.startsWith "uo" then (s.drop 2).toNat?.map (.dropO · true)
+  else if s.startsWith "vo" then (s.drop 2).toNat?.map (.dropO · true)
   else if s.startsWith "xo" then (s.drop 2).toNat?.map .discardO
   else if s.startsWith "wo" then (s.drop 2).toNat?.map .overwriteO
   else none
@@ -55,7 +59,7 @@ def closeStr (s : Impl) : String :=
 def swLoop : Impl → List Op → List String → Option (List String)
   | s, [], acc =>
     let s' := match s.borrowed with
-      | some _ => (s.step .dropB).getD s
+      | some _ => (s.step (.dropB false)).getD s
       | none => s
     some (("end/" ++ optStr s'.close) :: acc)
   | s, op :: ops, acc =>
